@@ -209,7 +209,8 @@ RULE = ("cases = (1) digest blocks covering every Unicode scalar value through f
         "strings up to a length and over the boundary alphabet {00 7F 80 BF C0 C2 DF E0 EF F0 F4 F7 F8 FF 41 61}, (4) single strings: random "
         "valid text, random bytes, mutated/truncated/overlong/surrogate/NUL-containing text, long strings, (5) the four free converters with "
         "arbitrary 32-bit inputs and budgets, (5b) dataw()/fixW() in place for every initial length 0..40 and every SafeString size 0..63 with the "
-        "scratch area filled to the brim with 1-, 2-, 3-byte units and surrogate pairs, String(Array<wchar_t>), (6) equalsNocase pairs (alphabet pairs, case-flipped text, cut-over and colliding entries); "
+        "scratch area filled to the brim with 1-, 2-, 3-byte units and surrogate pairs, String(Array<wchar_t>), (6) equalsNocase pairs (alphabet pairs, case-flipped text, cut-over and colliding entries), (7) valid text with U+0000 inside through "
+        "fromCodes/conv, wlength() (wlen) and the counts / well-formedness after case mapping (cvalid) on valid, NUL-containing, mutated and table-range text; "
         "non-trivial = distinct case containing an op with a non-empty argument")
 
 BND = bytes([0x00, 0x7F, 0x80, 0xBF, 0xC0, 0xC2, 0xDF, 0xE0, 0xEF, 0xF0, 0xF4, 0xF7, 0xF8, 0xFF, 0x41, 0x61])
